@@ -2005,6 +2005,12 @@ class C08(Prop):
             doc, steps = gens.allwild_family(g)
             for k in range(1, len(steps)):
                 items.append((doc, steps[:k], steps[k:], []))
+        for i in range(n // 6):
+            doc, steps = gens.rec_filter_family(g)
+            if len(steps) < 2:
+                steps = [('wild', 'br')] + steps
+            for k in range(1, len(steps)):
+                items.append((doc, steps[:k], steps[k:], []))
         # long arrays under a multi-valued prefix (the prefix has put results into the buffer before the long run of appends)
         for i in range(max(12, n // 150)):
             doc, steps = gens.big_fanout_family(g)
